@@ -52,4 +52,9 @@ def instances(tier):
         if aln >= 119:
             win = (117, min(aln, 123))
         out.append(rt_inst(fmt, ns, aln, (1, 2, 3) if ns == 3 else (2, 1, 1), win=win))
+    # FASTA with SYMBOLIC name characters from [A-Za-z0-9_.|-] (Clustal with symbolic names runs out of 8 GB: the layout becomes symbolic)
+    out.append(rt_inst(1, 2, 2, (2, 1, 1), sym_names=True))
+    if tier != "quick":
+        out.append(rt_inst(1, 3, 3, (1, 2, 3), sym_names=True))
+        out.append(rt_inst(1, 2, 4, (3, 3, 1), sym_names=True))
     return out
